@@ -9,6 +9,20 @@ let dispatch (t : string list) : string =
       let e = escape_string b s in
       Printf.sprintf "%s %s %s" (hex_of_str e) (hex_of_str (unescape_string b e))
         (hex_of_str (unescape_string b s))
+  | ["tok"; h] ->
+      let s = str_of_hex h in
+      (match tokenize is_alpha_rust s with
+       | None -> "OUT-OF-FUEL"
+       | Some ts ->
+           let b = Buffer.create 64 in
+           List.iter (fun t ->
+             let k = match t with Quoted _ -> 'Q' | Unquoted _ -> 'U' | Space _ -> 'S' | Punct _ -> 'P' in
+             Buffer.add_char b k;
+             Buffer.add_string b (hex_of_str (text t));
+             (match unquote t with Some u -> Buffer.add_char b '/'; Buffer.add_string b (hex_of_str u) | None -> ());
+             Buffer.add_char b ' ') ts;
+           Buffer.add_char b '.';
+           Buffer.contents b)
   | op :: _ -> "UNKNOWN-OP " ^ op
   | [] -> ""
 
@@ -20,7 +34,7 @@ let () =
        let line = String.trim (input_line ic) in
        if line <> "" && line.[0] <> '#' then begin
          let t = String.split_on_char ' ' line in
-         Buffer.add_string out (dispatch t);
+         Buffer.add_string out (try dispatch t with Stack_overflow -> "MODEL-EXN stack" | e -> "MODEL-EXN " ^ Printexc.to_string e);
          Buffer.add_char out '\n';
          if Buffer.length out > 60000 then (print_string (Buffer.contents out); Buffer.clear out)
        end
